@@ -37,6 +37,37 @@ def drain(ctx):
         ok = rv is not None and any(a[1] == rv and ((a[0] == '>' and a[2] == '0') or (a[0] == '>=' and a[2] == '1')) for a in A)
         ctx.ob('R-C09a', 'handler:dispatch-on-success-edge', ok, loc=cs['loc'],
                detail='the handler runs only on the edge %s > 0 (something was drained)' % rv, path=None if ok else path_to(f, cs), fn=f.q)
+    # once something was drained the handler must run before the function returns
+    rvs = {canon(s['lhs']) for s in f.events() if s['ev'] == 'store' and strip(s.get('rhs', {})).get('k') == 'call' and strip(s['rhs']).get('callee') == 'read'}
+    posvars = set()
+    for s__ in f.events():
+        if s__['ev'] == 'store' and strip(s__['lhs']).get('k') == 'var' and 'rhs' in s__:
+            r_ = strip(s__['rhs'])
+            vals = [r_['v']] if r_.get('k') == 'int' else ([strip(r_['a']).get('v'), strip(r_['b']).get('v')] if r_.get('k') == 'cond' else [None])
+            nm = strip(s__['lhs'])['name']
+            if all(isinstance(v, int) and v > 0 for v in vals):
+                posvars.add(nm)
+            else:
+                posvars.discard(nm)
+    def tr(e, s_):
+        if e in sites:
+            return False
+        return s_
+    def edge(blk, si, s_):
+        if blk.term and blk.term.get('cond') is not None and len(blk.succ) == 2:
+            for (op, lc, rc, l, r) in norm_cond(blk.term['cond'], si == 0):
+                if lc in rvs and rc.lstrip('-').isdigit():
+                    n_ = int(rc)
+                    if (op == '>' and n_ >= 0) or (op == '>=' and n_ >= 1) or (op == '==' and n_ > 0):
+                        return True
+                if lc in rvs and rc in posvars and op in ('==', '>=', '>'):
+                    return True
+        return s_
+    _, ev_in = forward(f, False, tr, lambda a, b: a or b, edge=edge)
+    pts = [(pb, pi) for (pb, pi, _) in exits_of(f)] + [(f.exit, 0)]
+    lost = [p for p in pts if ev_in.get(p)]
+    ctx.ob('R-C09a', 'handler:drained-implies-dispatch', not lost, loc=f.loc,
+           detail='no path returns without calling the handler after a read that returned data (a later would-block read must not cancel the dispatch)', fn=f.q)
     # EAGAIN arm returns; other errors fatal: on the ret <= 0 edge no path reaches the handler (implied) and non-EAGAIN is fatal
     fat = [e for e in f.events() if is_call(e, 'iv_fatal')]
     okf = False
